@@ -110,6 +110,16 @@ Theorem C20_accepted_eq_documented :
 Proof. exact live_accepted_eq_documented. Qed.
 Print Assumptions C20_accepted_eq_documented.
 
+(** The same in every way of running a test case that the inventory probes (`exactly CASE` is the base; `--act`, `--keep`,
+    `--suite SUITE CASE`, exactly.suite in the directory of the case, `exactly suite SUITE` listing the case, `exactly symbol
+    CASE`): of the names probed in that way (a complete use of every instruction / type / actor keyword / configuration
+    parameter that passes stand-alone; every builtin symbol and perturbations of it) exactly the documented ones are accepted. *)
+Theorem C20_accepted_in_every_way_of_running :
+  (forall p m, In p (inv_phases live) -> In m (pi_modes p) -> mode_ok (pi_help_struct p) m) /\
+  (forall e m, In e (inv_entities live) -> In m (ei_modes e) -> mode_ok (ei_help_struct e) m).
+Proof. exact live_accepted_in_every_way_of_running. Qed.
+Print Assumptions C20_accepted_in_every_way_of_running.
+
 (** Every enumerated request for something that exists exited 0 with output and without an escaping exception, and
     the enumeration covers every accepted instruction of every phase / suite section, every accepted entity, every
     phase and every entity type. *)
@@ -153,5 +163,11 @@ Example C20_inventory_not_empty :
   Nat.leb 100 (List.length (inv_html_hrefs live)) = true /\
   Nat.leb 100 (List.length (inv_requests live)) = true /\
   forallb (fun p => negb (pi_has_dict p) || Nat.leb 1 (List.length (pi_accepted p))) (inv_phases live) = true /\
-  forallb (fun e => Nat.leb 1 (List.length (ei_accepted e))) (inv_entities live) = true.
+  forallb (fun e => Nat.leb 1 (List.length (ei_accepted e))) (inv_entities live) = true /\
+  (* some entity type (the builtin symbols) is probed, with perturbed names too, in 6 further ways of running a case *)
+  existsb (fun e => Nat.leb 6 (List.length (ei_modes e)) &&
+                    forallb (fun m => subsetb (ei_help_struct e) (mo_accepted m) && Nat.leb 20 (List.length (mo_probed m)))
+                            (ei_modes e)) (inv_entities live) = true /\
+  forallb (fun p => negb (pi_has_dict p) || (Nat.leb 6 (List.length (pi_modes p))
+                     && forallb (fun m => Nat.leb 1 (List.length (mo_probed m))) (pi_modes p))) (inv_phases live) = true.
 Proof. vm_compute. repeat split; reflexivity. Qed.
